@@ -409,6 +409,20 @@ def _astype_int(a, dt):
     return _np.frompyfunc(k, 1, 1)(plain(a)).view(SymArray)
 
 
+class SymIntArray(SymArray):
+    """an array numpy would have given an integer dtype (np.full(shape, -1), np.zeros(n, dtype=int) holding symbolic data):
+    whatever is stored is truncated toward zero, as the real int64 array does"""
+
+    def __setitem__(self, key, value):
+        if isinstance(value, (list, tuple, _nd)) or is_sym(value) or isinstance(value, (float, _np.floating)):
+            vo = to_obj(value)
+            if vo.ndim == 0:
+                value = _astype_int(plain(vo).reshape(1).view(SymArray), _np.int64)[0]
+            else:
+                value = _astype_int(vo, _np.int64)
+        SymArray.__setitem__(self, key, value)
+
+
 # --------------------------------------------------------------------------- array functions
 
 def _axis_apply(fn, a, axis):
@@ -976,7 +990,10 @@ class Facade:
     def full(self, shape, fill_value, dtype=None, **kw):
         if not symbolic_mode() or _dtype_is_int(dtype):
             return _np.full(shape, fill_value, dtype=dtype)
-        a = _np.empty(shape, dtype=object); a.fill(fill_value); return a.view(SymArray)
+        a = _np.empty(shape, dtype=object); a.fill(fill_value)
+        if dtype is None and isinstance(fill_value, (int, _np.integer)) and not isinstance(fill_value, (bool, _np.bool_)):
+            return a.view(SymIntArray)       # numpy infers an integer dtype from the fill value
+        return a.view(SymArray)
 
     def eye(self, n, *a, **kw):
         r = _np.eye(n, *a, **kw)
